@@ -120,6 +120,10 @@ class C13(C01):
                         ops.append(("symlink", nm, b"tgt", self.rand_opts()))
                     else:
                         ops += [("aligned", nm, self.rand_opts(), 64), ("write", b"aligned")]
+                if r.random() < 0.25:
+                    # a rejected add (name longer than the 16-bit field) in front of or between the legal ones: it must be refused
+                    # and must leave the old entries alone
+                    ops.insert(r.choice([0, 0, len(ops)]), ("file", b"N" * r.choice([65536, 70000]), Opts()))
                 if r.random() < 0.3:
                     ops.append(("comment", r.choice([b"", b"replaced comment %d" % rnd])))
                 ops.append(("finish",))
@@ -167,7 +171,12 @@ class C13(C01):
         ops = meta["ops"]
         if calls is None or len(calls) != len(ops):
             return "unexpected output " + out[:100]
+        toolong = lambda op: op[0] == "file" and len(op[1]) > 65535
         for op, c in zip(ops, calls):
+            if toolong(op):
+                if isinstance(c, list) and c[0] == "Ok":
+                    return "a name of %d bytes was accepted" % len(op[1])
+                continue
             if not (isinstance(c, list) and c[0] == "Ok"):
                 return "a legal %s call failed while appending: %s" % (op[0], c)
         if meta.get("span"):
@@ -197,7 +206,9 @@ class C13(C01):
         comment = None
         for op in ops:
             kind = op[0]
-            if kind in ("file", "aligned"):
+            if toolong(op):
+                cur = None
+            elif kind in ("file", "aligned"):
                 cur = [op[1], b"", op[2].method]
                 exp.append(cur)
             elif kind == "dir":
